@@ -264,7 +264,30 @@ theorem guard_flexPushSeal (it : Ty) (l : LenTy) (f pos : Nat) (data : Slice) (z
     simp [pushWalk, hr, hmax, Slice.splitAt, hsplit, hv, hz, hc, Gen.gFlexPushSeal_cond, Gen.gFlexPushSeal_kind,
       Gen.flexPushSeal, ceilMul_eq]
 
-theorem guards_untranslatable_none : (Gen.gCheckAlign_untranslatable || Gen.gCheckMin_untranslatable || Gen.gVecValidate_untranslatable ||
+/-- the generated validators of enums: the tag range test of `tag.rs` (`*tag < #var_count`, else `InvalidEnumTag @ 0`) and, for an
+unsized enum, the per-variant room test of `cast.rs` — made on the payload *after* it has been floored to the alignment (the site
+regex requires that order), refused with the extracted kind -/
+theorem guard_cenum (tag : LenTy) (n : Nat) (s : Slice) (t : Nat) (hr : tag.readU s = .ok t) :
+    (cenumD tag n).validateU s = if Gen.cTagInRange_cond t n then .ok () else .err ⟨.invalidEnumTag, 0⟩ := by
+  simp only [cenumD, hr, Gen.cTagInRange_cond, decide_eq_true_eq, Bind.bind, Res.bind]
+  split <;> rfl
+theorem guard_uenum (tag : LenTy) (vs : List (List Dict)) (s : Slice) (t : Nat) (hr : tag.readU s = .ok t) :
+    (uenumD tag vs).validateU s =
+      let al := max tag.align (alignLL vs)
+      let dOff := ceilMul tag.size al
+      if Gen.cTagInRange_cond t vs.length then
+        (s.dropU dOff).bind fun data =>
+          let data := data.take (Gen.uenumValidateFloor data.len al)
+          if Gen.gEnumVariantRoom_cond data.len (varMinSize (vs.getD t [])) dOff then .err ⟨Gen.gEnumVariantRoom_kind, dOff⟩
+          else (validateAll (vs.getD t []) 0 data).offset dOff
+      else .err ⟨.invalidEnumTag, 0⟩ := by
+  simp only [uenumD, hr, Gen.cTagInRange_cond, Gen.gEnumVariantRoom_cond, Gen.gEnumVariantRoom_kind, Gen.uenumValidateFloor, floorMul_eq,
+    decide_eq_true_eq, Bind.bind, Res.bind]
+  split
+  · cases s.dropU (ceilMul tag.size (max tag.align (alignLL vs))) <;> simp
+  · rfl
+
+theorem guards_untranslatable_none : (Gen.gEnumVariantRoom_untranslatable || Gen.cTagInRange_untranslatable || Gen.gCheckAlign_untranslatable || Gen.gCheckMin_untranslatable || Gen.gVecValidate_untranslatable ||
     Gen.gVecFromArray_untranslatable || Gen.gStrValidate_untranslatable || Gen.gFlexSlotAlign_untranslatable || Gen.gFlexBadOffset_untranslatable ||
     Gen.gFlexShort_untranslatable || Gen.gFlexFillRoom_untranslatable || Gen.gFlexFillSeal_untranslatable || Gen.gFlexPushSeal_untranslatable) = false := by decide
 end FV.Bridge
